@@ -216,13 +216,26 @@ def check(R, F):
             ok = pre_ok and rng == 'ops::Range{0_usize,%d_usize}' % len(prefix) and parse_u16 and rest is not False and ('RangeFrom{%d_usize}' % len(prefix)) in (rest or '') and conv
             R.require(ok, 'fromstr-fallback', ty, frm.where(), 'falls through to %sn: case-insensitive prefix + u16::from_str' % prefix,
                       'FromStr fall-through: prefix test ok=%s, prefix range=%s, parses u16=%s, rest=%s, converts with From<u16>=%s' % (pre_ok, rng, parse_u16, rest, conv))
+            # once the prefix matched, the verdict is u16::from_str's and nothing else: every path from taking the rest
+            # of the text to the return passes the parse call, and no branch lies between the parse and the return
+            # (a further acceptance test before or after it would reject values that Display produces, e.g. "%s0")
+            pb = [b for b, t in frm.calls() if callee_name(t).endswith('<impl str>::parse')]
+            ib = [b for b, t in frm.calls() if re.search(r'Index<', callee_name(t)) and 'RangeFrom' in paths.show_operand(frm, t['args'][1])]
+            ok2 = len(pb) == 1 and len(ib) == 1
+            why = 'cannot find exactly one parse call and one text[%d..] index' % len(prefix)
+            if ok2:
+                byp = paths.must_pass(frm, ib[0], frm.ret_blocks(), lambda b: b == pb[0])
+                br = frm.find_path(pb[0], lambda b: b != pb[0] and frm.blocks[b]['term']['k'] == 'switch' and not frm.blocks[b]['cleanup'])
+                ok2 = byp is None and br is None
+                why = 'after the %s prefix matched, %s: some numeric forms that Display produces would be rejected' % (prefix, ('a path returns without consulting u16::from_str (%s)' % paths.fmt_path(frm, byp)) if byp else ('the result of u16::from_str is tested again before returning (%s)' % paths.fmt_path(frm, br or [])))
+            R.require(ok2, 'fromstr-fallback', ty + '|verdict-is-u16-from_str', frm.where(pb[0]) if pb else frm.where(), 'after the prefix, accept exactly what u16::from_str accepts', why)
         else:
             ok = any(n == '<%s as std::str::FromStr>::from_str' % delegate for n in names)
             R.require(ok, 'fromstr-fallback', ty, frm.where(), 'delegates to %s::from_str' % delegate, 'FromStr fall-through does not delegate to %s' % delegate)
     R.floor('display-table', 34)
     R.floor('fromstr-table', 60)
     R.floor('case-insensitive', 4)
-    R.floor('fromstr-fallback', 4)
+    R.floor('fromstr-fallback', 6)
     R.floor('display-fallback', 4)
 
     # (6) 4-bit conversions
